@@ -351,6 +351,10 @@ def api(draw, hostile=True, annotate=True, max_callables=6, with_gobject=True):
     for j, k in enumerate(rec_fields):
         fields.append({'name': 'f%d' % j, 'type': kind_type(k)})
     decls.append({'d': 'compound', 'kind': 'struct', 'tag': '_FooRec', 'typedef': None, 'fields': fields})
+    if draw(st.booleans()):
+        # functions that pair with an enumeration as its static functions (declared in non-sorted order)
+        decls.append({'d': 'function', 'name': 'foo_kind_to_string', 'ret': B('char', 1, True), 'params': [param('kind', T('FooKind'))]})
+        decls.append({'d': 'function', 'name': 'foo_kind_from_string', 'ret': T('FooKind'), 'params': [param('s', B('char', 1, True))]})
     if annotate and draw(st.booleans()):
         comments.append(['/**\n * FooSkipped: (skip)\n *\n * Not for bindings.\n */', '/src/foo.c', 1000])
     dump = None
